@@ -1,385 +1,5 @@
-import Pko.Util
-import Pko.Model.Deploy
-import Pko.Model.DeploySpec
-import Pko.Model.DeployRetry
-/-! Line driver for C16.  `model` prints what the model of `Deploy` / the Package controller does
-for a scenario (same format as the Go harnesses); `monitor` parses the IMPLEMENTATION's line into
-observations and evaluates the property (`DeploySpec.checkDeploy` / `checkRun`) on them.
-
-The only knowledge about the leaves that lives here is `leavesOf`: which outcome each leaf has
-for the concrete inputs the harness builds (e.g. "Kubernetes >=1.20.x against 1.19.2 is unmet").
-It is confirmed by the correspondence run, where the real loader / semver / schema / renderer
-evaluate those inputs. -/
-namespace Pko.Drv.C16
-open Lean Pko.Model.Deploy Pko.Model.DeploySpec Pko.Model.DeployRetry
-
-structure JPkg where
-  load : String
-  cons : Option (List String)
-  render : String
-  comps : Bool
-  badlock : Bool
-  deriving FromJson
-
-structure JEnv where
-  ocp : Bool
-  k8snew : Bool
-  ocpnew : Bool
-  k8sbad : Bool
-  deriving FromJson
-
-structure JOp where
-  op : String
-  f : String
-  v : Nat
-  fault : String
-  deriving FromJson
-
-structure Scn where
-  mode : String
-  scope : String
-  env : JEnv
-  uniq : String
-  prior : String
-  od : String
-  pkgs : List JPkg
-  spec : List Nat
-  ops : List JOp
-  deriving FromJson
-
-/-! ### leaf outcomes of the harness's concrete inputs -/
-
-def conOut (e : JEnv) : String → List COut
-  | "platform" => [if e.ocp then .met else .unmet]
-  | "k8s" => [if e.k8sbad then .err else if e.k8snew then .met else .unmet]
-  | "ocp" => [if !e.ocp then .met else if e.ocpnew then .met else .unmet]
-  | "badrange" => [.err]
-  -- one manifest entry with both fields: the loop body checks platform, then platformVersion
-  | "platform+k8s" =>
-    [if e.ocp then .met else .unmet, if e.k8sbad then .err else if e.k8snew then .met else .unmet]
-  | _ => []
-
-def uniqOut (sc : Scn) (cons : List String) : UOut :=
-  if cons.contains "unique" then
-    match sc.uniq with
-    | "0" => .zero | "1" => .one | "2" => .many | _ => .listErr
-  else .absent
-
-def leavesOf (sc : Scn) (loaderFault : Bool) (s : Spec) : Leaves :=
-  match sc.pkgs[s.image]? with
-  | none => { load := false, cons := [], uniq := .absent, cfgJson := true, admission := .ok, images := true,
-              render := true, desired := true }
-  | some p =>
-    let cons := p.cons.getD []
-    let compOk := match s.component with
-      | 0 => true
-      | 1 => p.comps
-      | _ => false
-    { load := !loaderFault && p.load == "ok" && compOk
-      cons := (cons.map (conOut sc.env)).flatten
-      uniq := uniqOut sc cons
-      cfgJson := s.config != 5
-      admission := if s.config == 3 then .invalid else .ok
-      images := !p.badlock
-      render := p.render == "ok"
-      desired := true }
-
-def xOf : Nat → String
-  | 0 => "none" | 1 => "a" | 2 => "b" | 3 => "7" | 4 => "a" | _ => "?"
-
-/-- What a fresh render of a spec looks like in the stored template (`verifc16.TemplateID`). -/
-def renderId (s : Spec) : String :=
-  s!"p{s.image}{if s.component == 1 then "c1" else ""}.{s.image}.{xOf s.config}"
-
-/-- "conflict<N>": a third party writes before each of the next N Updates. -/
-def conflictOf (f : String) : Option Nat :=
-  if f.startsWith "conflict" then (f.drop 8).toNat? else none
-
-def faultsOf : String → Faults
-  | "pull" => { pull := true }
-  | "env" => { env := true }
-  | "pkgget" => { pkgGet := true }
-  | "odget0" => { odGet0 := true }
-  | "odget" => { recon := .get }
-  | "odcreate" => { recon := .create }
-  | "odupdate" => { recon := .update }
-  | "gc" => { recon := .late }
-  | "odget2" => { odGet2 := true }
-  | "status" => { status := true }
-  | f => match conflictOf f with
-    | some (n + 1) => { recon := .conflict (n + 1) }
-    | _ => {}
-
-def specOf (l : List Nat) : Option Spec :=
-  match l with
-  | [a, b, c] => some ⟨a, b, c⟩
-  | _ => none
-
-/-- History of a ctrl scenario (`none` = malformed: BAD-OP / BAD-SCN). -/
-def opsOf (sc : Scn) : Spec → List JOp → Option (List Op)
-  | _, [] => some []
-  | s, j :: js =>
-    match j.op with
-    | "edit" =>
-      let s' : Option Spec := match j.f with
-        | "image" => some { s with image := j.v }
-        | "config" => some { s with config := j.v }
-        | "component" => some { s with component := j.v }
-        | "meta" => some s
-        | _ => none
-      match s' with
-      | none => none
-      | some s' => if s'.image < sc.pkgs.length then (opsOf sc s' js).map (Op.edit s' :: ·) else none
-    | "pass" => (opsOf sc s js).map (Op.pass (faultsOf j.fault) :: ·)
-    | _ => none
-
-/-! ### printing -/
-
-def invStr : Inv → String
-  | .none => "-" | .loadError => "LoadError" | .constraintsFailed => "ConstraintsFailed"
-
-def writeStr : Write → String
-  | .create => "C" | .createFail => "C!" | .update => "U" | .updateFail => "U!" | .updateConflict => "U~"
-
-def writesStr (ws : List Write) : String := ",".intercalate (ws.map writeStr)
-
-def odStr : OD String → String
-  | none => "-" | some none => "empty" | some (some t) => t
-
-def resStr : Res → String
-  | .ok => "ok" | .requeue => "requeue" | .err => "err"
-
-def hashStr : Option Spec → String
-  | none => "-" | some s => s!"{s.image}.{s.config}.{s.component}"
-
-def unpackedStr : Option Bool → String
-  | none => "-" | some true => "T/UnpackSuccess" | some false => "F/ImagePullBackOff"
-
-def invCondStr : Inv → String
-  | .none => "-" | i => "T/" ++ invStr i
-
-/-- The ObjectDeployment the harness puts into the API at the start (`c16OD`). -/
-def srvOf : String → Option (Obj String)
-  | "empty" => some ⟨1, none, [], []⟩
-  | "old" => some ⟨1, some "old", [], []⟩
-  | "prev" => some ⟨1, some "old", [("img", "0"), ("cfg", "1"), ("cc", "inst")], [("pkg", "pkg0"), ("inst", "p")]⟩
-  | _ => none
-
-def odOf (s : String) : OD String := absOD (srvOf s)
-
-/-- Annotations / labels of `desiredObjectDeployment` for a spec, in the vocabulary of
-`verifc16.MetaID`. -/
-def desiredOf (s : Spec) : Obj String :=
-  ⟨0, none, [("img", toString s.image), ("cfg", toString s.config), ("cc", "inst")],
-   -- the manifest name of a component is the component's name (the structural loader renames it)
-   [("pkg", if s.component == 1 then "c1" else s!"pkg{s.image}"), ("inst", "p")]⟩
-
-/-- Key of the i-th third-party write of a pass (`verifc16.Client.thirdPartyWrite`). -/
-def tpKey (i : Nat) : String := s!"tp{i + 1}"
-
-def dedupKV : KV → List String → KV
-  | [], _ => []
-  | (k, v) :: r, seen => if seen.contains k then dedupKV r seen else (k, v) :: dedupKV r (k :: seen)
-
-/-- Canonical print of a map: `k:v` strings sorted, `-` when empty. -/
-def kvStr (m : KV) : String :=
-  let xs := ((dedupKV m []).map fun kv => kv.1 ++ ":" ++ kv.2).mergeSort (fun a b => !(b < a))
-  if xs.isEmpty then "-" else ",".intercalate xs
-
-def metaStr (s : Option (Obj String)) : String :=
-  match s with
-  | none => "ann=- lab=-"
-  | some o => s!"ann={kvStr o.ann} lab={kvStr o.lab}"
-
-def priorOf : String → Inv
-  | "LoadError" => .loadError | "ConstraintsFailed" => .constraintsFailed | _ => .none
-
-/-! ### deploy stream -/
-
-structure DeployCase where
-  L : Leaves
-  f : RFault
-  inv : Inv
-  od : OD String
-  t : String
-  srv : Option (Obj String)
-  desired : Obj String
-
-def deployCase (sc : Scn) : Option DeployCase := do
-  let s ← specOf sc.spec
-  if s.image ≥ sc.pkgs.length then none
-  let fault := (sc.ops.filter (·.op == "pass")).getLast?.map (·.fault) |>.getD ""
-  some { L := leavesOf sc (fault == "loader") s, f := (faultsOf fault).recon, inv := priorOf sc.prior,
-         od := odOf sc.od, t := renderId s, srv := srvOf sc.od, desired := desiredOf s }
-
-def listsOf (L : Leaves) : Nat :=
-  if L.load && (consLoop L.cons).isSome && L.uniq != .absent then 1 else 0
-
-def modelDeploy (sc : Scn) : String :=
-  match deployCase sc with
-  | none => "BAD-SCN"
-  | some c =>
-    let r := deployObj c.t c.desired c.L c.f c.inv c.srv tpKey
-    let d := r.1
-    s!"ret={if d.err then "err" else "nil"} inv={invStr d.inv} w={writesStr d.writes} t={odStr (absOD r.2)} rec={if d.reconciled then 1 else 0} lists={listsOf c.L} {metaStr r.2}"
-
-/-! ### ctrl stream -/
-
-def modelCtrl (sc : Scn) : String :=
-  match specOf sc.spec with
-  | none => "BAD-SCN"
-  | some s0 =>
-    if s0.image ≥ sc.pkgs.length then "BAD-SCN" else
-    match opsOf sc s0 sc.ops with
-    | none => "BAD-SCN"
-    | some ops =>
-      let tr := trace (H := Spec) id renderId (leavesOf sc false) (fresh s0) ops
-      let rec go (sp : Spec) : List Op → List (Option (PassRes Spec String)) → List String
-        | .edit s :: ops, _ :: rs => "e" :: go s ops rs
-        | .pass _ :: ops, some r :: rs =>
-          let o := obsOf r
-          s!"r={resStr o.res} pull={if o.pulls == 0 then "" else toString sp.image} dep={o.deploys} w={writesStr o.writes} t={odStr o.od} h={hashStr o.hash} un={unpackedStr o.unpacked} inv={invCondStr o.invalid}"
-            :: go sp ops rs
-        | _, _ => []
-      ";".intercalate (go s0 ops tr)
-
-def model (sc : Scn) : String :=
-  if sc.mode == "deploy" then modelDeploy sc else modelCtrl sc
-
-/-! ### parsing the implementation's line -/
-
-def fieldsOf (st : String) : List (String × String) :=
-  (st.splitOn " ").filterMap fun kv =>
-    match kv.splitOn "=" with
-    | [k, v] => some (k, v)
-    | _ => none
-
-def getF (fs : List (String × String)) (k : String) : Option String := (fs.find? (·.1 == k)).map (·.2)
-
-def parseWrites (s : String) : Option (List Write) :=
-  if s.isEmpty then some [] else
-  (s.splitOn ",").mapM fun
-    | "C" => some .create | "C!" => some .createFail | "U" => some .update | "U!" => some .updateFail
-    | "U~" => some .updateConflict
-    | _ => none
-
-def parseOd : String → OD String
-  | "-" => none | "empty" => some none | t => some (some t)
-
-def parseInv : String → Option Inv
-  | "-" => some .none | "LoadError" => some .loadError | "ConstraintsFailed" => some .constraintsFailed
-  | "T/LoadError" => some .loadError | "T/ConstraintsFailed" => some .constraintsFailed
-  | _ => none
-
-def parseHash (s : String) : Option (Option Spec) :=
-  if s == "-" then some none else
-  match (s.splitOn ".").map String.toNat? with
-  | [some a, some b, some c] => some (some ⟨a, b, c⟩)
-  | _ => none
-
-def parseKV (s : String) : Option KV :=
-  if s == "-" then some [] else
-  (s.splitOn ",").mapM fun e =>
-    match e.splitOn ":" with
-    | [k, v] => some (k, v)
-    | _ => none
-
-def parseMObs (line : String) : Option MObs := do
-  let fs := fieldsOf line
-  let a ← (← getF fs "ann") |> parseKV
-  let l ← (← getF fs "lab") |> parseKV
-  some ⟨a, l⟩
-
-def premOf (s : Option (Obj String)) : MObs :=
-  match s with
-  | none => ⟨[], []⟩
-  | some o => ⟨o.ann, o.lab⟩
-
-def parseDObs (line : String) : Option (DObs String) := do
-  let fs := fieldsOf line
-  let ret ← getF fs "ret"
-  let inv ← (← getF fs "inv") |> parseInv
-  let ws ← (← getF fs "w") |> parseWrites
-  let t ← getF fs "t"
-  let rc ← getF fs "rec"
-  if ret != "nil" && ret != "err" then none
-  some { err := ret == "err", inv := inv, writes := ws, od := parseOd t, reconciled := rc != "0" }
-
-def parsePObs (st : String) : Option (PObs Spec String) := do
-  let fs := fieldsOf st
-  let r ← match (← getF fs "r") with
-    | "ok" => some Res.ok | "requeue" => some Res.requeue | "err" => some Res.err | _ => none
-  let pull ← getF fs "pull"
-  let dep ← (← getF fs "dep").toNat?
-  let ws ← (← getF fs "w") |> parseWrites
-  let t ← getF fs "t"
-  let h ← (← getF fs "h") |> parseHash
-  let un ← match (← getF fs "un") with
-    | "-" => some none
-    | u => if u.startsWith "T/" then some (some true) else if u.startsWith "F/" then some (some false)
-           else if u.startsWith "U/" then some none  -- status Unknown: neither True nor False is shown
-           else none
-  let inv ← (← getF fs "inv") |> parseInv
-  some { res := r, pulls := if pull.isEmpty then 0 else (pull.splitOn ",").length, deploys := dep, writes := ws,
-         od := parseOd t, hash := h, unpacked := un, invalid := inv }
-
-def monitorDeploy (sc : Scn) (out : String) : String :=
-  match deployCase sc with
-  | none => if out == "BAD-SCN" then "ok" else s!"bad shape expected BAD-SCN got {out.take 60}"
-  | some c =>
-    match parseDObs out with
-    | none => s!"bad unparsable {out.take 100}"
-    | some o =>
-      match parseMObs out with
-      | none => s!"bad unparsable-metadata {out.take 160}"
-      | some m =>
-        match checkDeploy c.t c.L c.f c.od o ++
-            checkMeta c.L c.desired.ann c.desired.lab ((List.range c.f.conflicts).map tpKey) (premOf c.srv) o m with
-        | [] => "ok"
-        | v :: _ => s!"bad {v} expected-template={c.t} out={out}"
-
-/-- The last clause of the property at FULL strength on a history: after a fault-free pass over an
-admissible spec the ObjectDeployment carries the fresh render — also when an EARLIER pass of the
-history lost its status write (`checkRun` arms its `stale-template` clause only for loss-free
-histories, which is what `changed_spec_history_ends_fresh_partial` proves).  A hit here that
-`checkRun` does not report is the known finding C16-c (lost status write + revert of the spec). -/
-def staleRun {H T : Type} [DecidableEq H] [DecidableEq T] (hash : Spec → H) (render : Spec → T)
-    (W : Spec → Leaves) : MState H T → List Op → List (Option (PObs H T)) → List (Nat × String)
-  | m, .edit s :: ops, none :: obs => staleRun hash render W { m with spec := s, idx := m.idx + 1 } ops obs
-  | m, .pass F :: ops, some o :: obs =>
-    (((checkStep hash render (W m.spec) F m.spec m.ph m.pod (clean F) o).filter (· == "stale-template")).map
-      fun _ => (m.idx, "stale-template-after-lost-status")) ++
-      staleRun hash render W { m with ph := o.hash, pod := o.od, idx := m.idx + 1 } ops obs
-  | _, _, _ => []
-
-def monitorCtrl (sc : Scn) (out : String) : String :=
-  let bad := if out == "BAD-SCN" then "ok" else s!"bad shape expected BAD-SCN got {out.take 60}"
-  match specOf sc.spec with
-  | none => bad
-  | some s0 =>
-    if s0.image ≥ sc.pkgs.length then bad else
-    match opsOf sc s0 sc.ops with
-    | none => bad
-    | some ops =>
-      let steps := if out.isEmpty then [] else out.splitOn ";"
-      let obs : Option (List (Option (PObs Spec String))) :=
-        steps.mapM fun st => if st == "e" then some none else (parsePObs st).map some
-      match obs with
-      | none => s!"bad unparsable {out.take 100}"
-      | some obs =>
-        match checkRun (H := Spec) id renderId (leavesOf sc false)
-            { spec := s0, ph := none, pod := none, lateSeen := false, idx := 0 } ops obs with
-        | [] =>
-          match staleRun (H := Spec) id renderId (leavesOf sc false)
-              { spec := s0, ph := none, pod := none, lateSeen := false, idx := 0 } ops obs with
-          | [] => "ok"
-          | (i, v) :: _ => s!"bad {v} step={i} got={steps.getD i ""}"
-        | (i, v) :: _ => s!"bad {v} step={i} got={steps.getD i ""}"
-
-def monitor (sc : Scn) (out : String) : String :=
-  if sc.mode == "deploy" then monitorDeploy sc out else monitorCtrl sc out
-
-end Pko.Drv.C16
+import Pko.Drv.C16Common
+/-! Line driver for C16: `Pko.Drv.C16.model` / `Pko.Drv.C16.monitor` live in `Pko.Drv.C16Common`. -/
 
 def main (args : List String) : IO UInt32 :=
   Pko.Util.driverMain Pko.Drv.C16.Scn Pko.Drv.C16.model Pko.Drv.C16.monitor args
